@@ -43,10 +43,14 @@ impl<'a, F: Frame> Signal for Dyn<'a, F> {
 // ------------------------------------------------------------------------------------------
 // instrumentation: an iterator that counts calls, a signal wrapper that counts next() calls
 
+/// The source iterator is deliberately NOT fused: once its data has run out it returns `None` exactly
+/// once, and if it is polled again after that it yields "ghost" items (its last item, repeated).  A
+/// signal that really ends when its iterator first ends never sees them.
 struct CountIter<T> {
     data: Vec<T>,
     pos: usize,
     calls: Rc<Cell<u32>>,
+    ended: bool,
 }
 impl<T: Copy> Iterator for CountIter<T> {
     type Item = T;
@@ -55,8 +59,13 @@ impl<T: Copy> Iterator for CountIter<T> {
         let r = self.data.get(self.pos).copied();
         if r.is_some() {
             self.pos += 1;
+            return r;
         }
-        r
+        if !self.ended {
+            self.ended = true;
+            return None;
+        }
+        self.data.last().copied()
     }
 }
 struct Counted<S> {
@@ -280,11 +289,11 @@ fn mk_source<F: Sort>(spec: &Value, pulls: Rc<Cell<u32>>, iters: Rc<Cell<u32>>) 
     let xs = spec["xs"].as_array().expect("xs");
     if spec["kind"] == "samples" {
         let data: Vec<F::Sample> = xs.iter().map(F::s_from_json).collect();
-        let it = CountIter { data, pos: 0, calls: iters };
+        let it = CountIter { data, pos: 0, calls: iters, ended: false };
         Dyn::new(Counted { inner: signal::from_interleaved_samples_iter::<_, F>(it), calls: pulls })
     } else {
         let data: Vec<F> = xs.iter().map(F::f_from_json).collect();
-        let it = CountIter { data, pos: 0, calls: iters };
+        let it = CountIter { data, pos: 0, calls: iters, ended: false };
         Dyn::new(Counted { inner: signal::from_iter(it), calls: pulls })
     }
 }
@@ -577,7 +586,7 @@ fn run_exec<F: Sort>(out: &mut Out, ex: &[Value]) {
                         // FromIterator; it becomes the (instrumented) leaf `src j` of the term.
                         let j = (a["j"].as_u64().expect("lift j") as usize) - 1;
                         let data: Vec<F> = srcs[j]["xs"].as_array().expect("xs").iter().map(F::f_from_json).collect();
-                        let it = CountIter { data, pos: 0, calls: iters[j].clone() };
+                        let it = CountIter { data, pos: 0, calls: iters[j].clone(), ended: false };
                         let pj = pulls[j].clone();
                         let cxr = &mut cx;
                         let made = catch(move || {
@@ -953,8 +962,23 @@ fn gen_extremes(g: &mut Gen, thorough: bool, execs: &mut Vec<Vec<Value>>) {
             terms.push(json!({"k": "offsetpc", "os": os, "a": leaf.clone()}));
             let gs: Vec<Value> = (0..ch).map(|c| enc(ff, if c % 2 == 0 { 1.0 } else { 0.5 })).collect();
             terms.push(json!({"k": "scalepc", "gs": gs, "a": leaf.clone()}));
+            if is_float(fmt) {
+                // float frames may exceed full scale; clipping at or above 1.0 must still clip
+                for th in [1.0, 1.5, 2.0] {
+                    terms.push(json!({"k": "clip", "th": enc(sf, th), "a": json!({"k": "src", "j": 3})}));
+                    terms.push(json!({"k": "clip", "th": enc(sf, th),
+                                      "a": json!({"k": "scale", "g": enc(ff, 2.0), "a": leaf.clone()})}));
+                }
+            }
             for term in terms {
-                let srcs = vec![mk_src(1), mk_src(2)];
+                let mut srcs = vec![mk_src(1), mk_src(2)];
+                if is_float(fmt) {
+                    let big = [-3.0, 2.5, 1.0, -1.0, 1.75, -1.25, 0.5];
+                    let xs: Vec<Value> = (0..big.len())
+                        .map(|i| Value::Array((0..ch).map(|c| enc(fmt, big[(i + c) % big.len()])).collect()))
+                        .collect();
+                    srcs.push(json!({"fmt": fmt, "kind": "frames", "xs": xs}));
+                }
                 let mut ex = vec![json!({"ev": "reset", "comp": "signal",
                                          "cfg": {"ch": ch, "fmt": fmt, "srcs": srcs, "term": term}})];
                 for _ in 0..(amps.len() + 3) {
